@@ -45,9 +45,10 @@ where
 
     fn write_register<T: ConfigReg>(&mut self, register: T) -> Result<(), Self::Error> {
         self.csb.set_low().map_err(BMA400Error::ChipSelectPinError)?;
-        self.spi.write(&[register.addr(), register.to_byte()]).map_err(BMA400Error::IOError)?;
-        self.csb.set_high().map_err(BMA400Error::ChipSelectPinError)?;
-        Ok(())
+        let result = self.spi.write(&[register.addr(), register.to_byte()]).map_err(BMA400Error::IOError);
+        // Always release chip select, reporting the transfer error first
+        let release = self.csb.set_high().map_err(BMA400Error::ChipSelectPinError);
+        result.and(release)
     }
 }
 
@@ -60,10 +61,13 @@ where
 
     fn read_register<T: ReadReg>(&mut self, register: T, buffer: &mut [u8]) -> Result<(), Self::Error> {
         self.csb.set_low().map_err(BMA400Error::ChipSelectPinError)?;
-        self.spi.transfer(&mut [register.addr() | 1 << 7, 0]).map_err(BMA400Error::IOError)?;
-        self.spi.transfer(buffer).map_err(BMA400Error::IOError)?;
-        self.csb.set_high().map_err(BMA400Error::ChipSelectPinError)?;
-        Ok(())
+        let mut result = self.spi.transfer(&mut [register.addr() | 1 << 7, 0]).map(|_| ()).map_err(BMA400Error::IOError);
+        if result.is_ok() {
+            result = self.spi.transfer(buffer).map(|_| ()).map_err(BMA400Error::IOError);
+        }
+        // Always release chip select, reporting the transfer error first
+        let release = self.csb.set_high().map_err(BMA400Error::ChipSelectPinError);
+        result.and(release)
     }
 }
 
